@@ -177,7 +177,8 @@ pub struct RawHistory {
 #[derive(Clone, Copy, Debug)]
 pub enum RawOp {
     /// contributing control change: `which` selects the controller from the scanner's set / palette
-    Contrib { sel: u8, which: u8, v: u8, carrier: u8 },
+    /// `link` couples the value to other values of the history (see `concretize`)
+    Contrib { sel: u8, which: u8, v: u8, carrier: u8, link: u8 },
     OtherCc { sel: u8, cn: u8, v: u8, carrier: u8 },
     OtherChannelMsg { sel: u8, hi: u8, d1: u8, d2: u8, carrier: u8 },
     System { lo: u8, d1: u8, d2: u8, carrier: u8 },
@@ -218,7 +219,7 @@ pub fn default_weights(kind: Kind) -> Weights {
 
 pub fn raw_op_strategy(w: &Weights) -> BoxedStrategy<RawOp> {
     let mut v: Vec<(u32, BoxedStrategy<RawOp>)> = Vec::new();
-    v.push((w.contrib, (any::<u8>(), any::<u8>(), value_strategy(), carrier_strategy()).prop_map(|(sel, which, v, carrier)| RawOp::Contrib { sel, which, v, carrier }).boxed()));
+    v.push((w.contrib, (any::<u8>(), any::<u8>(), value_strategy(), carrier_strategy(), any::<u8>()).prop_map(|(sel, which, v, carrier, link)| RawOp::Contrib { sel, which, v, carrier, link }).boxed()));
     if w.other_cc > 0 {
         v.push((w.other_cc, (any::<u8>(), 0u8..128, value_strategy(), carrier_strategy()).prop_map(|(sel, cn, v, carrier)| RawOp::OtherCc { sel, cn, v, carrier }).boxed()));
     }
@@ -274,19 +275,35 @@ fn pick(subset: &[u8], sel: u8) -> u8 {
 pub fn concretize(kind: Kind, h: &RawHistory, timeout_ns: u64) -> Vec<Op> {
     let subset = subset_of(h.mask);
     let mut out = Vec::with_capacity(h.raw.len() + 4);
+    let mut recent: Vec<u8> = Vec::with_capacity(8);
     if kind != Kind::Cc14 {
         for (i, &ch) in subset.iter().enumerate() {
             if h.preselect & (1 << ch) != 0 {
                 let reg = (h.palette[0] as usize + i) % 2 == 0;
                 out.push(Op::cc(ch, if reg { 101 } else { 99 }, h.palette[1] * 4 + (i as u8 & 3)));
                 out.push(Op::cc(ch, if reg { 100 } else { 98 }, h.palette[2] * 4 + 1));
+                recent.push(h.palette[1] * 4 + (i as u8 & 3));
+                recent.push(h.palette[2] * 4 + 1);
             }
         }
     }
     for r in &h.raw {
         let op = match *r {
-            RawOp::Contrib { sel, which, v, carrier } => {
+            RawOp::Contrib { sel, which, v, carrier, link } => {
                 let ch = pick(&subset, sel);
+                // value coupling (about one op in four): relations between values of a history -
+                // equal to a recently used value, to the channel number, complement / neighbour of
+                // a recent value - are otherwise vanishingly rare under independent draws
+                let v = match link % 16 {
+                    0 | 1 if !recent.is_empty() => recent[(link as usize / 16) % recent.len()],
+                    2 => ch,
+                    3 if !recent.is_empty() => recent[(link as usize / 16) % recent.len()] ^ 1,
+                    _ => v,
+                };
+                recent.push(v);
+                if recent.len() > 6 {
+                    recent.remove(0);
+                }
                 let cn = match kind {
                     Kind::Cc14 => {
                         // palette of up to three MSB controllers; LSB = MSB + 32; sometimes any 0..64
